@@ -489,6 +489,17 @@ def run(ctx):
         ctx.fail('C13.R6', f.key, f.site, f.message)
     if not _lifted:
         ctx.ok('C13.R6', 'kmip/services/server/engine.py', 'the base table is AUTOINCREMENT')
+    # ---------------- C13.R7 (lifted from C05)
+    ctx.rule('C13.R7', 'the column converters of the object store never raise (lifted from C05.R3): their exceptions are not KMIP errors and are answered with General Failure')
+    from ..report import Ctx as _LCtx_C13_R7
+    from . import c05 as _lsrc_C13_R7
+    _sub_C13_R7 = _LCtx_C13_R7('C05', 'quick', ctx.src, 0)
+    _lsrc_C13_R7.run(_sub_C13_R7)
+    _lifted_C13_R7 = [f for f in _sub_C13_R7.findings if f.rule == 'C05.R3' and '|total' in f.key]
+    for f in _lifted_C13_R7:
+        ctx.fail('C13.R7', f.key, f.site, f.message)
+    if not _lifted_C13_R7:
+        ctx.ok('C13.R7', 'lifted from C05', 'column converters are total')
     ctx.not_decided += ['implicit exceptions of third-party code for particular values (cryptography rejecting a nonce length, unpadding failure with a wrong key)']
     ctx.assumptions += ['requests reach the engine only through the decoders (wire-decoded provenance): field types are those the decoders construct',
                         'TypeError raises in pie validate() are infeasible for decoder-typed values; ValueError raises depend on values and are feasible']
